@@ -316,10 +316,10 @@ func histString(rs []*OpRec) string {
 // ringBroken recognises one specific root cause so that its many consequences
 // (wrong pointers, failing lookups, unreachable keys) are reported as one
 // class: a member whose whole successor list consists of nodes that left
-// gracefully, all of them starting to leave within one stabilize period of each
-// other, so that the member never had a chance to refresh its list from a live
-// successor. Stabilize only ever consults successors, so such a member can
-// never find the ring again.
+// gracefully (overlapping leaves: a leaving node keeps answering as a valid
+// successor until its Leave has finished, so the advisory stabilize of its
+// predecessor does not move past it). Stabilize only ever consults successors,
+// so such a member can never find the ring again.
 func (ex *Exec) ringBroken(members []*NodeH) string {
 	byID := map[uint64]*NodeH{}
 	for _, h := range ex.c.All {
@@ -344,9 +344,9 @@ func (ex *Exec) ringBroken(members []*NodeH) string {
 				dead++
 			}
 		}
-		if n > 0 && dead == n && hi-lo < 2*ex.p.Stab {
-			simrt.Event("ROOT: node %d has only departed successors (all left within %v)", m.ID, hi-lo)
-			return "ring-broken/all-successors-left-within-one-stabilize-period"
+		if n > 0 && dead == n {
+			simrt.Event("ROOT: node %d has only departed successors (they started leaving within %v)", m.ID, hi-lo)
+			return "ring-broken/all-listed-successors-left-gracefully"
 		}
 	}
 	return ""
